@@ -45,6 +45,9 @@ func (f *frontMatterHandlerImpl) Split() error {
 	if f.originalFilename == "-" {
 		reader = bufio.NewReader(os.Stdin)
 	} else {
+		if err := verifStep("fm.open"); err != nil {
+			return err
+		}
 		file, err := os.Open(f.originalFilename) // #nosec
 		if err != nil {
 			return err
@@ -80,6 +83,9 @@ func (f *frontMatterHandlerImpl) Split() error {
 			return errReading
 		}
 
+		if err := verifStep("fm.write"); err != nil {
+			return err
+		}
 		_, errWriting := yamlTempFile.WriteString(line)
 
 		if errWriting != nil {
@@ -87,6 +93,7 @@ func (f *frontMatterHandlerImpl) Split() error {
 		}
 	}
 
+	_ = verifStep("fm.close")
 	safelyCloseFile(yamlTempFile)
 
 	return nil
